@@ -134,10 +134,17 @@ func c01config(c *Check, rng *rand.Rand, name string, opt EnvOpt, ncases int) {
 	// deep pipelines: more than 1024 (the writev limit) completed replies behind a slow head
 	for k := 0; k < c.Pick(1, 6); k++ {
 		n := 1100 + rng.Intn(1500)
+		logged := env.Cl.LogLen()
 		cl, p, gate, err := deepPipeline(env, script, rng, n)
 		must(err, "deep pipeline")
+		// every request has reached its node (all but the head are answered at once) and the
+		// proxy has digested those replies: only then is the head released
+		for i := 0; i < 2000 && env.Cl.LogLen()-logged < n; i++ {
+			time.Sleep(5 * time.Millisecond)
+		}
 		env.Barrier()
 		time.Sleep(50 * time.Millisecond)
+		env.Barrier()
 		gate.Open()
 		if !cl.WaitReplies(n, 10*time.Second) {
 			env.Barrier()
